@@ -14,37 +14,103 @@ What is proved here
       attribute read is defined in the class hierarchy — EXCEPT the sites listed in
       `knownKwExceptions` / `knownAttrExceptions`, which are proved to be exactly the violations
       (a new non-conforming site, or the repair of a listed one, breaks the theorem).
-What is NOT proved: that a complete run with any option (pair) terminates and returns valid results —
-that is an integration sweep on the real code (harness/c20_sweep.py), evidence and failing-input
-search, not a theorem.
+  (3) where option values are validated: in the table of `raise` statements guarded by an option
+      (generated from the sources, classified "upfront" = reachable from the constructors / before the
+      live points are drawn, "late" = reachable only once sampling has started) the options tested late
+      are exactly `knownLateOptions`.
+What is NOT proved:
+  * the property's first half as such — "an unacceptable configuration is rejected BEFORE sampling
+    starts": (3) only locates the explicit `raise` statements that mention an option; that every bad
+    value is caught by one of the up-front sites (rather than by an exception deep inside sampling) is
+    checked by the sweep only (invalid-choice runs), not proved;
+  * that a complete run with any option (pair) terminates and returns valid results — that is an
+    integration sweep on the real code (harness/c20_sweep.py), evidence and failing-input search.
 -/
 namespace NessaiVerif.C20
 open NessaiVerif.Term
 
 /-! ## FlowProposal.populate -/
 
-/-- `FlowProposal.populate`, rejection-sampling branch (`accumulate_weights=False`): if every batch is
-non-empty after the `log_q` truncation and the maximum of its log-weights is a finite number, the
-`while n_accepted < N` loop ends after at most `N` batches with a pool of exactly `N` points. -/
+/-- A batch that is Good (non-empty after the `log_q` truncation, finite maximum log-weight) makes the loop
+body accept at least one point — the point attaining the maximum, since `0 > log u` for every `u ∈ [0,1)`. -/
+theorem populate_good_batch_progress (N : Nat) (m : Option EF) (u : Nat → Nat → LU) (st : StdState) (b : Batch)
+    (hg : isGood m b = true) : st.nAcc + 1 ≤ (stdStep N m u st b).nAcc :=
+  stdStep_good N m u st b ((isGood_iff m b).mp hg)
+
+example : 0 + 1 ≤ (stdStep 3 none (fun _ _ => .half 0) {} ⟨2, [⟨1, .fin 0, .fin (-7)⟩, ⟨2, .fin 0, .ninf⟩]⟩).nAcc :=
+  populate_good_batch_progress 3 none _ {} _ (by decide)
+
+/-- …and a batch that is NOT Good accepts nothing at all: nothing survives the truncation, or ONE weight is NaN
+(then `log_w.max()` is NaN), or the maximum is +∞ (`inf - inf` is NaN, `finite - inf` is −∞) or −∞. -/
+theorem populate_not_good_no_progress (N : Nat) (m : Option EF) (u : Nat → Nat → LU) (st : StdState) (b : Batch)
+    (hg : isGood m b = false) : (stdStep N m u st b).nAcc = st.nAcc := by
+  have hb : ¬ Good m b := by
+    intro h; have := (isGood_iff m b).mpr h; rw [hg] at this; cases this
+  rw [stdStep_nAcc_eq, batchAcc_zero m u st.calls b hb]; rfl
+
+/-- one NaN among finite weights, and a +∞ maximum: nothing accepted -/
+example : (stdStep 3 none (fun _ _ => .ninf) {} ⟨3, [⟨1, .fin 0, .fin 5⟩, ⟨2, .fin 0, .nan⟩, ⟨3, .fin 0, .fin 1⟩]⟩).nAcc = 0 :=
+  populate_not_good_no_progress 3 none _ {} _ (by decide)
+example : (stdStep 3 none (fun _ _ => .ninf) {} ⟨2, [⟨1, .fin 0, .pinf⟩, ⟨2, .fin 0, .fin 1⟩]⟩).nAcc = 0 :=
+  populate_not_good_no_progress 3 none _ {} _ (by decide)
+
+/-- **Exact termination criterion** of the rejection-sampling branch (`accumulate_weights=False`), for ANY stream
+of batches: the `while n_accepted < N` loop has ended within the stream iff the batches accept at least `N`
+points in total (`stdAccepted`: the sum of the per-batch acceptance counts; only Good batches contribute). -/
+theorem populate_terminates_iff (N : Nat) (m : Option EF) (u : Nat → Nat → LU) (bs : List Batch) :
+    (populateStd N m u bs {}).isDone = true ↔ N ≤ stdAccepted m u bs 0 := by
+  have := populateStd_isDone_iff N m u bs {}
+  simpa using this
+
+example : (populateStd 2 none (fun _ _ => .half 0) [⟨1, [⟨1, .fin 0, .nan⟩]⟩, ⟨1, [⟨2, .fin 0, .fin 0⟩]⟩, ⟨1, [⟨3, .fin 0, .fin 4⟩]⟩] {}).isDone = true :=
+  (populate_terminates_iff 2 none _ _).mpr (by decide)
+
+/-- only Good batches contribute, and each contributes at least one point -/
+theorem populate_accepted_bounds (m : Option EF) (u : Nat → Nat → LU) (bs : List Batch) :
+    bs.countP (isGood m) ≤ stdAccepted m u bs 0 ∧
+    ((∀ b ∈ bs, isGood m b = false) → stdAccepted m u bs 0 = 0) :=
+  ⟨countGood_le_stdAccepted m u bs 0, stdAccepted_zero m u bs 0⟩
+
+example : stdAccepted none (fun _ _ => .ninf) [⟨1, [⟨1, .fin 0, .nan⟩]⟩, ⟨1, [⟨2, .fin 0, .pinf⟩]⟩] 0 = 0 :=
+  (populate_accepted_bounds none _ _).2 (by decide)
+
+/-- Sufficient form (partial: it needs the progress hypothesis): if the stream contains at least `N` Good
+batches — in any position, interleaved with any other batches — the loop ends with a pool of exactly `N`
+points; if ALL batches are Good it ends within `N` batches. -/
 theorem populate_terminates_partial (N : Nat) (m : Option EF) (u : Nat → Nat → LU) (bs : List Batch)
-    (hg : ∀ b ∈ bs, Good m b) (hlen : N ≤ bs.length) :
-    ∃ s, populateStd N m u bs {} = .done s ∧ s.used ≤ N ∧ N ≤ s.nAcc ∧ s.xs.length = N := by
-  obtain ⟨s, h, h1, h2, h3⟩ := populateStd_done N m u bs {} hg (by simpa using hlen) (by simp)
-  exact ⟨s, h, by simp at h2; omega, h1, h3⟩
+    (hlen : N ≤ bs.countP (isGood m)) :
+    (populateStd N m u bs {}).isDone = true ∧
+    ((∀ b ∈ bs, isGood m b = true) → ∃ s, populateStd N m u bs {} = .done s ∧ s.used ≤ N ∧ s.xs.length = N) := by
+  refine ⟨(populate_terminates_iff N m u bs).mpr (Nat.le_trans hlen (countGood_le_stdAccepted m u bs 0)), ?_⟩
+  intro hall
+  have hl : N ≤ bs.length := Nat.le_trans hlen (List.countP_le_length)
+  obtain ⟨s, h, _, h2, h3⟩ := populateStd_done N m u bs {} (fun b hb => (isGood_iff m b).mp (hall b hb))
+    (by simpa using hl) (by simp)
+  exact ⟨s, h, by simp at h2; omega, h3⟩
+
+example : (populateStd 2 (some (.fin 0)) (fun _ _ => .half 1)
+    [⟨3, [⟨1, .fin 1, .fin (-2)⟩, ⟨2, .fin 0, .fin 5⟩, ⟨3, .fin 2, .fin 0⟩]⟩, ⟨3, [⟨4, .fin 1, .nan⟩]⟩,
+     ⟨3, [⟨6, .fin 1, .fin 1⟩]⟩] {}).isDone = true :=
+  (populate_terminates_partial 2 (some (.fin 0)) _ _ (by decide)).1
 
 example : (match populateStd 2 (some (.fin 0)) (fun _ _ => .half 1)
     [⟨3, [⟨1, .fin 1, .fin (-2)⟩, ⟨2, .fin 0, .fin 5⟩, ⟨3, .fin 2, .fin 0⟩]⟩, ⟨3, [⟨4, .fin 1, .fin (-5)⟩, ⟨5, .fin 1, .fin 0⟩]⟩,
      ⟨3, [⟨6, .fin 1, .fin 1⟩]⟩] {} with | .done s => some (s.xs, s.used) | .spin _ => none) = some ([3, 5], 2) := by
   decide +kernel
 
-/-- The excluded case: the loop has NO guard in this branch.  A stream of batches in which nothing
-survives the truncation, or every weight is NaN, or every weight is −∞ (so `log_w - log_w.max()` is NaN
-throughout) never accepts a point — after any number of batches the loop is still spinning. -/
+/-- The excluded case, in full: the loop has NO guard in this branch.  If NO batch of the stream is Good
+the loop is still spinning after any number of batches, with nothing accepted. -/
 theorem populate_can_spin (N : Nat) (hN : 1 ≤ N) (m : Option EF) (u : Nat → Nat → LU) (bs : List Batch)
-    (hs : ∀ b ∈ bs, Stuck m b) :
-    ∃ s, populateStd N m u bs {} = .spin s ∧ s.nAcc = 0 ∧ s.used = bs.length := by
-  obtain ⟨s, h, h1, h2⟩ := populateStd_spin N m u bs {} hs (by simp; omega)
-  exact ⟨s, h, by simpa using h1, by simpa using h2⟩
+    (hs : ∀ b ∈ bs, isGood m b = false) : (populateStd N m u bs {}).isDone = false := by
+  have h0 := stdAccepted_zero m u bs 0 hs
+  cases hd : (populateStd N m u bs {}).isDone with
+  | false => rfl
+  | true => have := (populate_terminates_iff N m u bs).mp hd; omega
+
+/-- a stream mixing the three kinds of useless batch: a single NaN weight, a +∞ maximum, truncated to nothing -/
+example : (populateStd 1 (some (.fin 0)) (fun _ _ => .ninf)
+    [⟨2, [⟨1, .fin 1, .fin 3⟩, ⟨2, .fin 1, .nan⟩]⟩, ⟨2, [⟨3, .fin 1, .pinf⟩, ⟨4, .fin 1, .fin 0⟩]⟩, ⟨2, [⟨5, .fin 0, .fin 0⟩]⟩] {}).isDone = false :=
+  populate_can_spin 1 (by decide) _ _ _ (by decide)
 
 /-- the progress hypothesis of `populate_terminates_partial` cannot be dropped: three all-NaN batches, still spinning -/
 theorem populate_terminates_fails_without :
@@ -60,6 +126,10 @@ theorem populate_accumulate_bounded_partial (N maxS : Nat) (m : Option EF) (u : 
   obtain ⟨r, h, h1, h2⟩ := populateAcc_done N m maxS u bs {} hg (by simpa using hlen) (by simp)
   exact ⟨r, h, by simpa using h1, h2⟩
 
+example : ∃ r, populateAcc 2 none 1 (fun _ _ => .half 1)
+    [⟨3, [⟨1, .fin 0, .nan⟩]⟩, ⟨3, [⟨2, .fin 0, .nan⟩]⟩] {} = .done r ∧ r.used ≤ 1 + 1 ∧ r.xs.length ≤ 2 :=
+  populate_accumulate_bounded_partial 2 1 none _ _ (by decide) (by decide)
+
 example : (match populateAcc 2 none 5 (fun _ _ => .half 1)
     [⟨3, [⟨1, .fin 0, .fin 0⟩]⟩, ⟨3, [⟨2, .fin 0, .fin 0⟩, ⟨3, .fin 0, .fin (-1)⟩]⟩] {} with
       | .done r => some r.xs | .spin _ => none) = some [1, 2] := by decide +kernel
@@ -72,13 +142,34 @@ theorem populate_accumulate_can_spin (N maxS : Nat) (hN : 1 ≤ N) (m : Option E
   obtain ⟨r, h, h1⟩ := populateAcc_spin N m maxS u bs {} he (by simp; omega)
   exact ⟨r, h, by simpa using h1⟩
 
+example : ∃ r, populateAcc 1 (some (.fin 5)) 0 (fun _ _ => .half 0) (List.replicate 4 ⟨10, [⟨1, .fin 0, .fin 0⟩]⟩) {} = .spin r ∧ r.used = 4 :=
+  populate_accumulate_can_spin 1 0 (by decide) (some (.fin 5)) _ _ (by decide)
+
 example : (match populateAcc 1 (some (.fin 5)) 0 (fun _ _ => .half 0) (List.replicate 4 ⟨10, [⟨1, .fin 0, .fin 0⟩]⟩) {} with
       | .done _ => none | .spin r => some r.nProp) = some 40 := by decide +kernel
 
 /-! ## ImportanceFlowProposal.draw -/
 
-/-- `ImportanceFlowProposal.draw(n)`: if every batch contains at least one point that passes both masks,
-the loop ends after at most `n` batches and returns exactly `n` points. -/
+/-- **Exact termination criterion** of `ImportanceFlowProposal.draw(n)` (n ≥ 1), for ANY stream of batches:
+the loop body accepts exactly the points that pass both masks, so `while n_accepted < n` has ended within the
+stream iff the stream contains at least `n` such points in total (`okTotal`). -/
+theorem ins_draw_terminates_iff (n : Nat) (hn : 1 ≤ n) (bs : List (List (Nat × PK))) :
+    (insDraw n bs).isDone = true ↔ n ≤ okTotal bs := by
+  have h := insLoop_isDone_iff n (insNDraw_pos n hn) bs {}
+  have he : (insDraw n bs).isDone = (insLoop n bs {}).isDone := by
+    unfold insDraw; cases insLoop n bs {} <;> rfl
+  rw [he, h]; simp
+
+example : (insDraw 3 [[(1, .rej1), (2, .ok)], [(3, .rej2), (4, .rej1)], [(5, .ok), (6, .ok)]]).isDone = true :=
+  (ins_draw_terminates_iff 3 (by decide) _).mpr (by decide)
+example : (insDraw 3 [[(1, .rej1), (2, .ok)], [(3, .rej2), (4, .rej1)], [(5, .ok), (6, .rej2)]]).isDone = false := by
+  have := ins_draw_terminates_iff 3 (by decide) [[(1, .rej1), (2, .ok)], [(3, .rej2), (4, .rej1)], [(5, .ok), (6, .rej2)]]
+  cases h : (insDraw 3 [[(1, .rej1), (2, .ok)], [(3, .rej2), (4, .rej1)], [(5, .ok), (6, .rej2)]]).isDone with
+  | false => rfl
+  | true => exact absurd (this.mp h) (by decide)
+
+/-- Sufficient form (partial: it needs the progress hypothesis): if every batch contains at least one point that
+passes both masks, the loop ends after at most `n` batches and returns exactly `n` points. -/
 theorem ins_draw_terminates_partial (n : Nat) (bs : List (List (Nat × PK))) (hg : ∀ b ∈ bs, HasOk b)
     (hlen : n ≤ bs.length) : ∃ xs used, insDraw n bs = .done (xs, used) ∧ used ≤ n ∧ xs.length = n := by
   obtain ⟨s, h, hu, hn, hl⟩ := insLoop_done n bs {} hg (by simpa using hlen) rfl
@@ -87,6 +178,10 @@ theorem ins_draw_terminates_partial (n : Nat) (bs : List (List (Nat × PK))) (hg
   · simp [List.length_take, hl]; omega
   · have : n = 0 := by unfold insNDraw at hn; omega
     subst this; simp
+
+example : ∃ xs used, insDraw 2 [[(1, .rej1), (2, .ok)], [(3, .ok), (4, .rej1)], [(5, .ok), (6, .ok)]] = .done (xs, used)
+    ∧ used ≤ 2 ∧ xs.length = 2 :=
+  ins_draw_terminates_partial 2 _ (by decide) (by decide)
 
 example : insDraw 2 [[(1, .rej1), (2, .ok)], [(3, .rej2), (4, .rej1)], [(5, .ok), (6, .ok)]] = .done ([2, 5], 3) := by
   decide +kernel
@@ -101,6 +196,9 @@ theorem ins_draw_can_spin (n : Nat) (hn : 1 ≤ n) (bs : List (List (Nat × PK))
     ∃ xs, insDraw n bs = .spin (xs, bs.length) := by
   obtain ⟨s, h, hu, _⟩ := insLoop_spin n bs {} hb (by simp; omega) (insNDraw_pos n hn)
   exact ⟨s.xs.take n, by simp [insDraw, h, hu]⟩
+
+example : ∃ xs, insDraw 2 [[(1, .rej1), (2, .rej2)], [(3, .rej2)], []] = .spin (xs, 3) :=
+  ins_draw_can_spin 2 (by decide) _ (by decide)
 
 /-- the hypothesis of `ins_draw_terminates_partial` cannot be dropped -/
 theorem ins_draw_terminates_fails_without :
@@ -143,6 +241,17 @@ theorem check_batch_size_post (len : Nat) (b r : Int) (num den : Nat)
         injection h with h; subst h
         left; exact ⟨rfl, hc⟩
 
+/-- applied: batch size 1000 on 1005 points is lowered to 905 (final batch of exactly min_batch_size = 100 points) -/
+example :
+    ((905 : Int) = 1000 ∧ ¬ (Int.fmod (1005 : Nat) 1000 ≠ 0 ∧ Int.fmod (1005 : Nat) 1000 < minBatch 1 10 1000)) ∨
+    ((2 : Int) ≤ 905 ∧ (905 : Int) < 1000 ∧ (Int.fmod (1005 : Nat) 905 = 0 ∨ minBatch 1 10 1000 ≤ Int.fmod (1005 : Nat) 905 ∨
+      ((905 : Int) ≤ minBatch 1 10 1000 ∧ 1 < Int.fmod (1005 : Nat) 905))) :=
+  check_batch_size_post 1005 1000 905 1 10 (by
+    have ht : (checkBatchSize 1005 1000 1 10).toOption = some 905 := by decide +kernel
+    cases h : checkBatchSize 1005 1000 1 10 with
+    | ok r => rw [h] at ht; simp [Except.toOption] at ht; rw [ht]
+    | error e => rw [h] at ht; simp [Except.toOption] at ht)
+
 example : (checkBatchSize 1005 1000 1 10).toOption = some 905 ∧ (checkBatchSize 1005 100 1 10).toOption = some 99 ∧
     (checkBatchSize 7 1 1 10).toOption = none ∧ (checkBatchSize 3 2 1 1).toOption = none := by decide +kernel
 
@@ -165,6 +274,9 @@ theorem batch_halving_post (b : Nat) (mx : Int) :
     | none => exact absurd hh (batch_halving_terminates b mx)
     | some r => exact ⟨r, rfl⟩
 
+example : ∃ r, halve 105000 20000 = some (some r) := (batch_halving_post 105000 20000).2.2 (by decide)
+example : ((13125 : Nat) : Int) ≤ 20000 ∧ 13125 ≤ 105000 := (batch_halving_post 105000 20000).1 13125 (by decide +kernel)
+
 example : halve (finalBatch0 100000) 20000 = some (some 13125) ∧ halve 5 0 = none ∧ halve 0 0 = some (some 0) := by
   decide +kernel
 
@@ -174,6 +286,10 @@ theorem draw_final_bounded (cfg : FinalCfg) (s : List (Nat × Nat)) (hlen : cfg.
     (finalLoop cfg s {}).1 ≠ .fuel ∧ (finalLoop cfg s {}).2.it ≤ cfg.maxIts.toNat := by
   have := finalLoop_bounded cfg s {} (by simpa using hlen)
   exact ⟨this.1, by have := this.2; simp at this; omega⟩
+
+example : (finalLoop ⟨some 10, 50, 3, some 100⟩ [(20, 7), (20, 15), (20, 19), (20, 40)] {}).1 ≠ .fuel ∧
+    (finalLoop ⟨some 10, 50, 3, some 100⟩ [(20, 7), (20, 15), (20, 19), (20, 40)] {}).2.it ≤ (3 : Int).toNat :=
+  draw_final_bounded ⟨some 10, 50, 3, some 100⟩ _ (by decide)
 
 example : finalLoop ⟨some 10, 50, 3, some 100⟩ [(20, 7), (20, 15), (20, 19), (20, 40)] {} =
     (.maxIts, { it := 3, size := 60, ess2 := 19 }) := by decide +kernel
@@ -186,11 +302,25 @@ amount to exactly that. -/
 theorem ns_live_stored_iff (c : Cand) : candStored c = (c.logP.isFinite && (candL c).isFinite) :=
   candStored_iff c
 
+/-- **Exact termination criterion** of `NestedSampler.populate_live_points`, for ANY stream of proposal draws:
+it has ended within the stream iff the stream contains at least `nlive` points that get stored. -/
+theorem ns_live_terminates_iff (nlive : Nat) (cs : List Cand) :
+    (nsLive nlive cs {}).isDone = true ↔ nlive ≤ cs.countP candStored := by
+  have := nsLive_isDone_iff nlive cs {}
+  simpa using this
+
+example : (nsLive 1 [⟨1, .fin 0, .nan, .fin 1, true⟩, ⟨2, .pinf, .fin 1, .fin 1, true⟩, ⟨3, .fin 0, .fin 0, .fin 2, true⟩] {}).isDone = true :=
+  (ns_live_terminates_iff 1 _).mpr (by decide)
+
 /-- …so it ends as soon as `nlive` such points have been drawn, with exactly `nlive` live points. -/
 theorem ns_live_terminates_partial (nlive : Nat) (cs : List Cand) (h : nlive ≤ cs.countP candStored) :
     ∃ s, nsLive nlive cs {} = .done s ∧ s.ids.length = nlive ∧ s.draws ≤ cs.length := by
   obtain ⟨s, hs, _, h2, h3⟩ := nsLive_done nlive cs {} (by simpa using h) rfl (by simp)
   exact ⟨s, hs, h2, by simpa using h3⟩
+
+example : ∃ s, nsLive 2 [⟨1, .fin 0, .nan, .fin 1, true⟩, ⟨2, .fin 0, .fin 0, .fin (-3), true⟩, ⟨3, .ninf, .fin 1, .fin 1, false⟩,
+    ⟨4, .fin (-1), .fin (-2), .nan, true⟩] {} = .done s ∧ s.ids.length = 2 ∧ s.draws ≤ 4 :=
+  ns_live_terminates_partial 2 _ (by decide)
 
 example : (match nsLive 2 [⟨1, .fin 0, .nan, .fin 1, true⟩, ⟨2, .fin 0, .fin 0, .fin (-3), true⟩, ⟨3, .ninf, .fin 1, .fin 1, false⟩,
     ⟨4, .fin (-1), .fin (-2), .nan, true⟩] {} with | .done s => some (s.ids, s.draws) | .spin _ => none) = some ([2, 4], 4) := by
@@ -203,13 +333,29 @@ theorem ns_live_can_spin (nlive : Nat) (hn : 1 ≤ nlive) (cs : List Cand) (h : 
   obtain ⟨s, hs, _, h2⟩ := nsLive_spin nlive cs {} h (by simp; omega)
   exact ⟨s, hs, by simpa using h2⟩
 
-/-- `ImportanceNestedSampler.populate_live_points`: if every batch of prior draws contains a point with a
-finite log-prior, the `while n < target` loop ends after at most `target` batches with `target` points. -/
+example : ∃ s, nsLive 1 [⟨1, .fin 0, .nan, .fin 1, true⟩, ⟨2, .ninf, .fin 1, .fin 1, false⟩, ⟨3, .fin 0, .fin 0, .pinf, true⟩] {} = .spin s
+    ∧ s.draws = 3 := ns_live_can_spin 1 (by decide) _ (by decide)
+
+/-- **Exact termination criterion** of `ImportanceNestedSampler.populate_live_points`, for ANY stream of prior
+batches: it has ended within the stream iff the batches contain at least `target` finite-prior points in total. -/
+theorem ins_live_terminates_iff (target : Nat) (bs : List (List (Nat × Bool))) :
+    (insLive target bs {}).isDone = true ↔ target ≤ finiteTotal bs := by
+  have := insLive_isDone_iff target bs {} (by simp)
+  simpa using this
+
+example : (insLive 3 [[(1, true), (2, false)], [], [(3, true), (4, true)]] {}).isDone = true :=
+  (ins_live_terminates_iff 3 _).mpr (by decide)
+
+/-- Sufficient form: if every batch of prior draws contains a point with a finite log-prior, the
+`while n < target` loop ends after at most `target` batches with `target` points. -/
 theorem ins_live_terminates_partial (target : Nat) (bs : List (List (Nat × Bool))) (hg : ∀ b ∈ bs, HasFinite b)
     (hlen : target ≤ bs.length) :
     ∃ s, insLive target bs {} = .done s ∧ s.ids.length = target ∧ s.used ≤ target := by
   obtain ⟨s, hs, _, h2, h3⟩ := insLive_done target bs {} hg (by simpa using hlen) rfl (by simp)
   exact ⟨s, hs, h2, by simpa using h3⟩
+
+example : ∃ s, insLive 2 [[(1, true), (2, false), (3, true)], [(4, true), (5, true), (6, true)]] {} = .done s ∧
+    s.ids.length = 2 ∧ s.used ≤ 2 := ins_live_terminates_partial 2 _ (by decide) (by decide)
 
 example : (match insLive 3 [[(1, true), (2, false), (3, true)], [(4, true), (5, true), (6, true)]] {} with
     | .done s => some (s.ids, s.used) | .spin _ => none) = some ([1, 3, 4], 2) := by decide +kernel
@@ -219,6 +365,9 @@ theorem ins_live_can_spin (target : Nat) (ht : 1 ≤ target) (bs : List (List (N
     (hb : ∀ b ∈ bs, ∀ p ∈ b, p.2 = false) : ∃ s, insLive target bs {} = .spin s ∧ s.used = bs.length := by
   obtain ⟨s, hs, _, h2⟩ := insLive_spin target bs {} hb (by simp; omega)
   exact ⟨s, hs, by simpa using h2⟩
+
+example : ∃ s, insLive 2 [[(1, false), (2, false)], [(3, false)]] {} = .spin s ∧ s.used = 2 :=
+  ins_live_can_spin 2 (by decide) _ (by decide)
 
 /-! ## interface conformance of the post-sampling paths (tables generated from the sources) -/
 
@@ -323,6 +472,23 @@ theorem attrs_defined_partial (r : AttrRead) (hr : r ∈ Gen.Term.attrReads)
   have := List.all_eq_true.mp attrs_table_exact.1 _ hm
   exact hx (by simpa [List.contains_eq_mem] using this)
 
+/-- applied to a concrete table: the keyword `x` of the site is not reported, hence accepted -/
+example : (false = true) ∨ "x" ∈ ["a", "x"] ∨ "x" ∈ ([] : List String) :=
+  kw_violations_sound [⟨"A.f", "B.g", 1, false, ["x", "bad"], ["a", "x"], [], ["a"], false, false⟩]
+    ⟨"A.f", "B.g", 1, false, ["x", "bad"], ["a", "x"], [], ["a"], false, false⟩ (by decide) "x" (by decide) (by decide)
+
+example : attrDefined [("C", ["a", "b"])] "C" "b" = true :=
+  attr_violations_sound [("C", ["a", "b"])] [⟨"C.f", "C", "b"⟩, ⟨"C.f", "C", "zz"⟩] ⟨"C.f", "C", "b"⟩ (by decide) (by decide)
+
+/-- the hypotheses of the two conformance theorems are met by the current tables, and they apply to every row -/
+example : (∃ s ∈ Gen.Term.callSites, ∃ k ∈ s.kwargs, (s.caller, s.callee, k) ∉ knownKwExceptions) ∧
+    (∃ r ∈ Gen.Term.attrReads, (r.caller, r.cls, r.attr) ∉ knownAttrExceptions) := by
+  constructor <;> decide +kernel
+example : ∀ s ∈ Gen.Term.callSites, ∀ k ∈ s.kwargs, (s.caller, s.callee, k) ∉ knownKwExceptions →
+    (s.varkw = true ∨ k ∈ s.posParams ∨ k ∈ s.kwonly) := fun s hs k hk hx => kwargs_conform_partial s hs k hk hx
+example : ∀ r ∈ Gen.Term.attrReads, (r.caller, r.cls, r.attr) ∉ knownAttrExceptions →
+    attrDefined Gen.Term.definedAttrs r.cls r.attr = true := fun r hr hx => attrs_defined_partial r hr hx
+
 /-- non-vacuity: the tables are not empty and contain conforming sites with keywords -/
 example : 100 ≤ Gen.Term.callSites.length ∧ 300 ≤ Gen.Term.attrReads.length ∧
     (Gen.Term.callSites.filter (fun s => !s.kwargs.isEmpty && (siteViolations s).isEmpty)).length ≥ 20 := by
@@ -331,5 +497,61 @@ example : 100 ≤ Gen.Term.callSites.length ∧ 300 ≤ Gen.Term.attrReads.lengt
 /-- the table check is not vacuous: a site passing an unknown keyword is reported -/
 example : kwViolations [⟨"A.f", "B.g", 1, false, ["x", "bad"], ["a", "x"], [], ["a"], false, false⟩] = [("A.f", "B.g", "bad")] := by
   decide +kernel
+
+/-! ## where option values are validated (table of `raise` sites generated from the sources)
+
+This is NOT the property's first half ("every unacceptable configuration is rejected before sampling starts"):
+it only classifies the explicit `raise` statements whose guarding condition mentions an option. -/
+
+/-- Options tested by a `raise` that is reachable ONLY once sampling has started (the sampling loops, the run
+methods, and for the importance sampler `proposal.initialise()`, which runs after the live points are drawn):
+  * `threshold_method`, `reparameterisation` (importance sampler): unknown values rejected at the first iteration /
+      in `proposal.initialise()` — findings `…threshold_method=<unknown>…`, `…reparameterisation=<unknown>…`;
+  * `posterior_sampling_method`, `result_extension`: unknown values rejected after sampling has FINISHED
+      (`draw_posterior_samples`, `save_results`);
+  * `batch_size`: `1` / a non-integer is rejected at the first training (`check_batch_size`, `prep_data`);
+  * `n_draw`+`n_posterior_samples`, `optimisation_method`/`optimise_weights`: argument checks inside `draw_final_samples`;
+  * `trace_parameters`: unknown parameter names rejected by `plot_trace`;
+  * `weighted_kl`, `strict_threshold`, `nlive`: internal consistency checks whose condition happens to mention
+      the option (not a validation of its value). -/
+def knownLateOptions : List String :=
+  ["threshold_method", "reparameterisation", "posterior_sampling_method", "result_extension", "batch_size",
+   "n_draw", "n_posterior_samples", "optimisation_method", "optimise_weights", "trace_parameters",
+   "weighted_kl", "strict_threshold", "nlive"]
+
+/-- meaning of `lateOptions`, for ANY table: an option tested by a late site is in the list -/
+theorem late_options_sound (t : List RaiseSite) (r : RaiseSite) (hr : r ∈ t) (hp : r.phase = "late")
+    (o : String) (ho : o ∈ r.options) : o ∈ lateOptions t := by
+  unfold lateOptions
+  rw [List.mem_flatMap]
+  exact ⟨r, List.mem_filter.mpr ⟨hr, by simp [hp]⟩, ho⟩
+
+example : "b" ∈ lateOptions [⟨"upfront", "A.__init__", "ValueError", ["a"]⟩, ⟨"late", "A.run", "ValueError", ["b", "c"]⟩] :=
+  late_options_sound _ ⟨"late", "A.run", "ValueError", ["b", "c"]⟩ (by decide) rfl "b" (by decide)
+
+/-- In the table generated from the current sources, the options tested late are exactly `knownLateOptions`
+(both inclusions): a new `raise` on an option in code that runs only after sampling started — or the move of a
+listed one to the constructors — breaks this obligation. -/
+theorem late_validation_exact :
+    (lateOptions Gen.Term.raiseSites).all (knownLateOptions.contains ·) = true ∧
+    knownLateOptions.all ((lateOptions Gen.Term.raiseSites).contains ·) = true := by
+  constructor <;> decide +kernel
+
+/-- **Validation sites** (partial): every `raise` statement of the table that tests an option outside
+`knownLateOptions` is reachable up front (from the constructors of FlowSampler / the samplers / their proposals,
+or from `NestedSampler.initialise`, i.e. before the live points are drawn). -/
+theorem validation_sites_upfront_partial (r : RaiseSite) (hr : r ∈ Gen.Term.raiseSites)
+    (o : String) (ho : o ∈ r.options) (hx : o ∉ knownLateOptions) : r.phase ≠ "late" := by
+  intro hp
+  have hm := late_options_sound Gen.Term.raiseSites r hr hp o ho
+  have := List.all_eq_true.mp late_validation_exact.1 _ hm
+  exact hx (by simpa [List.contains_eq_mem] using this)
+
+/-- applied: the hypotheses are met by the current table (e.g. `latent_prior`, `stopping_criterion`, `ftype`
+are tested by up-front sites only) and the theorem applies to every row -/
+example : ∃ r ∈ Gen.Term.raiseSites, ∃ o ∈ r.options, o ∉ knownLateOptions := by decide +kernel
+example : ∀ r ∈ Gen.Term.raiseSites, ∀ o ∈ r.options, o ∉ knownLateOptions → r.phase ≠ "late" :=
+  fun r hr o ho hx => validation_sites_upfront_partial r hr o ho hx
+example : 10 ≤ (Gen.Term.raiseSites.filter (fun r => r.phase != "late")).length := by decide +kernel
 
 end NessaiVerif.C20
